@@ -787,6 +787,22 @@ func gen(r *vlib.R, n int, tier string, emit func(string)) {
 			budget--
 		}
 	}
+	// hostsfile: every kind of entry x qtype x letter case, reverse names in both spellings
+	emit("hs new")
+	for i := 0; i < 60+n/300; i++ {
+		name := vlib.Pick(r, []string{"host1.zt.", "host2.zt.", "canon.zt.", "alias.zt.", "foo.wild.zt.", "wild.zt.", "a.b.wild.zt.", "foo.wild6.zt.",
+			"xwild.zt.", "nohost.zt.", "zt.", "host1.zt.example.", "sub.host1.zt.", "."})
+		qt := vlib.Pick(r, []int{1, 1, 28, 28, 5, 16, 255, 15, 12})
+		if r.Chance(1, 4) {
+			name = vlib.Pick(r, []string{"10.2.0.192.in-addr.arpa.", "11.2.0.192.in-addr.arpa.", "12.2.0.192.in-addr.arpa.", "14.2.0.192.in-addr.arpa.", "99.2.0.192.in-addr.arpa.",
+				"2.0.192.in-addr.arpa."})
+			qt = vlib.Pick(r, []int{12, 12, 12, 1})
+		}
+		if r.Chance(1, 2) {
+			name = mixCase(r, name)
+		}
+		emit(fmt.Sprintf("hs run name=%s qt=%d", name, qt))
+	}
 	// what reflex scores a request with
 	emit("rx new")
 	for i := 0; i < 30+n/400; i++ {
